@@ -940,10 +940,16 @@ fn read_block<R: Read + Seek>(mut reader: R, block: &Block) -> Result<Buffer, Ar
 ///
 /// <https://arrow.apache.org/docs/format/Columnar.html#encapsulated-message-format>
 fn parse_message(buf: &[u8]) -> Result<Message::Message<'_>, ArrowError> {
-    let buf = match buf[..4] == CONTINUATION_MARKER {
-        true => &buf[8..],
-        false => &buf[4..],
+    let prefix_len = match buf.get(..4) {
+        Some(prefix) if prefix == CONTINUATION_MARKER => 8,
+        _ => 4,
     };
+    let buf = buf.get(prefix_len..).ok_or_else(|| {
+        ArrowError::ParseError(format!(
+            "Encapsulated message of {} bytes is too short",
+            buf.len()
+        ))
+    })?;
     crate::root_as_message(buf)
         .map_err(|err| ArrowError::ParseError(format!("Unable to get root as message: {err:?}")))
 }
